@@ -84,7 +84,7 @@ def snapshot(sheet):
                 item.append(tuple((p.literalname, p.name, p.value, p.priority, p.cssText) for p in r.style.getProperties(all=True)))
                 item.append(r.style.length)
             if r.type in (R.MEDIA_RULE, R.IMPORT_RULE):
-                item.append((r.media.mediaText, r.media.length, tuple(q.value.mediaText for q in r.media)))
+                item.append((r.media.mediaText, r.media.length, tuple(r.media[i].mediaText for i in range(len(r.media)))))
             if r.type == R.IMPORT_RULE:
                 item.append((r.href, r.name))
             if r.type == R.NAMESPACE_RULE:
